@@ -10,7 +10,7 @@ from trie.exceptions import NodeOverrideError  # noqa: E402
 from eth_hash.auto import keccak  # noqa: E402
 
 ID = "C12"
-LEAN_IMPORTS = ["PyTrie.Props.C12", "PyTrie.Props.RawLevel", "PyTrie.Props.NonVacuity", "PyTrie.Props.NonVacuity2", "PyTrie.Props.NonVacuity3"]
+LEAN_IMPORTS = ["PyTrie.Props.C12", "PyTrie.Props.RawLevel", "PyTrie.Props.NonVacuity", "PyTrie.Props.NonVacuity2", "PyTrie.Props.NonVacuity3", "PyTrie.Props.C12History", "PyTrie.Props.NonVacuity10"]
 THEOREMS = [
     "PyTrie.Props.C12.canon_run",
     "PyTrie.Props.C12.get_step",
@@ -48,6 +48,12 @@ THEOREMS = [
     "PyTrie.Props.NonVacuity3.bin_past_saves_nothing",
     "PyTrie.Props.NonVacuity3.bin_deep_saves_nothing",
     "PyTrie.Props.NonVacuity3.bin_delete_saves_nothing",
+    "PyTrie.Props.Raw.bin_reach_prefix",
+    "PyTrie.Props.Raw.bin_history_log_grows",
+    "PyTrie.Props.Raw.bin_history_old_roots_readable",
+    "PyTrie.Props.NonVacuity10.bFinal_functional",
+    "PyTrie.Props.NonVacuity10.old_roots_witness",
+    "PyTrie.Props.NonVacuity10.old_roots_spec",
 ]
 RULE = ("histories of set / delete / delete_subtrie (method and dict syntax) over fixed-length and variable-length key pools "
         "with prefix-related keys, keys differing at every bit position of a byte, repeated values; after every call the outcome "
@@ -345,6 +351,24 @@ def run_case(case):
                 outg = "exn " + common.exc_name(ex)
                 res.fail("old-root-unreadable", "root %s: get(%r) raised %r" % (r.hex()[:12], p, ex))
             res.emit("bin.getat %s %s" % (hx(r), hx(p)), outg)
+    # root_node: the getter hands out the stored root body; the setter installs a node body as the root (validated, hashed,
+    # saved) — installing the body of an earlier root re-opens that version (model-free; found unexercised by tools/tiecov.py)
+    try:
+        if t.root_hash != BLANK and t.root_node != db[t.root_hash]:
+            res.fail("root-node-wrong", "root_node is not the body stored under the root hash")
+        for r, contents in list(roots.items())[:3]:
+            if r == BLANK or r not in db:
+                continue
+            t2 = BinaryTrie(view.snap())
+            t2.root_node = db[r]
+            res.tags.add("root_node-setter")
+            if t2.root_hash != r:
+                res.fail("root-node-wrong", "root_node = <body of root %s> gives root %s" % (r.hex()[:12], t2.root_hash.hex()[:12]))
+            for p in sorted(contents)[:4]:
+                if t2.get(p) != contents[p]:
+                    res.fail("old-root-wrong", "after root_node = <body of an earlier root> get(%r) = %r, it held %r" % (p, t2.get(p), contents[p]))
+    except Exception as ex:  # noqa
+        res.fail("lookup-raised", "root_node raised %r" % (ex,))
     res.nontrivial = maxkeys >= 2
     res.state_key = common.sha(sorted((k.hex(), v.hex()) for k, v in model.items()))
     return res
